@@ -154,6 +154,34 @@ def replay_planck_forms(col, cases):
     col.nontrivial.add("planck-forms")
 
 
+def replay_near_critical(col, cases):
+    """SnellNearCritical: sines a few millionths from the critical value (and identical media near grazing incidence)."""
+    from typhon.physics import em
+    for c in cases:
+        if c["critical"]:
+            continue
+        ratio = fl(c["ratio"])
+        th = float(np.degrees(np.arcsin(fl(c["s1"]))))
+        for n2 in (1.0, 2.0):
+            n1 = ratio * n2
+            rep = {"abstract": {"n1": n1, "n2": n2, "sin_theta1": c["s1"], "n1_sin_theta1_over_n2": c["s2"]}}
+            for label, args in (("scalar", (n1, n2, th)), ("array", (np.array([n1, n1]), np.array([n2, n2]), th))):
+                try:
+                    got = np.asarray(em.snell(*args), dtype=float).ravel()
+                except Exception as ex:
+                    col.violation("snell-raises-%s-near-critical" % type(ex).__name__, dict(rep, observed=repr(ex)[:200]))
+                    continue
+                col.count(1)
+                if c["reflected"]:
+                    if not np.all(np.isnan(got)):
+                        col.violation("snell-no-nan-just-beyond-the-critical-angle", dict(rep, observed=got.tolist()))
+                elif np.any(np.isnan(got)) or np.max(np.abs(np.sin(np.deg2rad(got)) - fl(c["s2"]))) > 1e-11:
+                    col.violation("snell-law-violated-just-below-the-critical-angle", dict(rep, expected_sin_theta2=fl(c["s2"]),
+                                                                                          observed_theta2=got.tolist()))
+        if c["near"]:
+            col.nontrivial.add(json.dumps([c["s1"], c["ratio"]]))
+
+
 def theta_of(s1):
     return float(np.degrees(np.arcsin(fl(s1))))
 
@@ -308,6 +336,12 @@ def run(ctx):
     ctx.sample({k: cases[0][k] for k in ("c", "k", "fg", "f2l", "rj", "hz2m")})
     big = ctx.tier != "quick"
     pmap(ctx, replay_planck_forms, [cases], procs=1)
+    res = ctx.tlc(d, "SnellNearCritical", "SnellNearCritical.cfg", workers=1, timeout=600)
+    ncases = list(res.tagged("CASE"))
+    if len(ncases) != 30 or sum(1 for c in ncases if c["near"] and not c["critical"]) < 4:
+        raise MachineryError("unexpected near-critical catalogue")
+    pmap(ctx, replay_near_critical, [ncases], procs=1)
+    ctx.traces += len(ncases)
     res = ctx.tlc(d, "SnellProps", "MCSnellBig.cfg" if big else "MCSnell.cfg", workers=1, timeout=1500)
     scases = list(res.tagged("CASE"))
     if len(scases) != (26 * 26 * 20 if big else 968) or not any(c["reflected"] for c in scases) or sum(1 for c in scases if c["brewster"] and c["hasp2"]) < 4:
